@@ -413,3 +413,154 @@ pub fn search_incr(_pid: &str, _oid: &str, seed: u64) -> Option<Found> {
     }
     None
 }
+
+// ======================================================= err_frame (C17) =======================================================
+// RPOPLPUSH / LMOVE / LPUSH / RPUSH / LSET / APPEND / MSETNX / INCRBYFLOAT / SETRANGE / HINCRBY / HSET: a command that replies with an
+// error (or MSETNX replying 0) leaves the full snapshot unchanged, also when it names two keys and only the second is at fault.
+
+fn err_commands() -> Vec<(Command, &'static str, bool)> {
+    // (command, description, must_fail)
+    let mut v: Vec<(Command, &'static str, bool)> = Vec::new();
+    let lmove = |s: &str, d: &str, f: &str, t: &str| Command::LMove { source: s.into(), dest: d.into(), wherefrom: f.into(), whereto: t.into() };
+    for dst in ["s_int", "s_text", "h", "st", "z"] {
+        for src in ["l", "l1"] {
+            v.push((Command::RPopLPush(src.into(), dst.into()), "RPOPLPUSH with a wrong-type destination (only the second key is at fault)", true));
+            for (f, t) in [("LEFT", "LEFT"), ("LEFT", "RIGHT"), ("RIGHT", "LEFT"), ("RIGHT", "RIGHT")] { v.push((lmove(src, dst, f, t), "LMOVE with a wrong-type destination (only the second key is at fault)", true)); }
+        }
+    }
+    for src in ["s_int", "h", "st", "z"] {
+        v.push((Command::RPopLPush(src.into(), "l".into()), "RPOPLPUSH with a wrong-type source", true));
+        v.push((Command::RPopLPush(src.into(), "newdst".into()), "RPOPLPUSH with a wrong-type source and a missing destination", true));
+        v.push((lmove(src, "l", "LEFT", "RIGHT"), "LMOVE with a wrong-type source", true));
+    }
+    v.push((lmove("l", "l1", "UP", "LEFT"), "LMOVE with an invalid direction", false));
+    v.push((lmove("l", "l1", "LEFT", "down"), "LMOVE with an invalid direction", false));
+    v.push((lmove("l", "s_int", "UP", "LEFT"), "LMOVE with an invalid direction and a wrong-type destination", true));
+    v.push((Command::RPopLPush("missing".into(), "s_int".into()), "RPOPLPUSH from a missing key", false));
+    for k in ["s_int", "s_text", "h", "st", "z"] {
+        v.push((Command::LPush(k.into(), vec![sds("p"), sds("q")]), "LPUSH on a wrong-type key", true));
+        v.push((Command::RPush(k.into(), vec![sds("p"), sds("q")]), "RPUSH on a wrong-type key", true));
+        v.push((Command::LSet(k.into(), 0, sds("X")), "LSET on a wrong-type key", true));
+    }
+    for idx in [3isize, -4, isize::MAX, isize::MIN] { v.push((Command::LSet("l".into(), idx, sds("X")), "LSET index out of range", true)); }
+    v.push((Command::LSet("missing".into(), 0, sds("X")), "LSET on a missing key", true));
+    for k in ["l", "l1", "h", "st", "z"] {
+        v.push((Command::Append(k.into(), sds("tail")), "APPEND on a wrong-type key", true));
+        v.push((Command::IncrByFloat(k.into(), 1.5), "INCRBYFLOAT on a wrong-type key", true));
+        v.push((Command::SetRange(k.into(), 1, sds("zz")), "SETRANGE on a wrong-type key", true));
+        v.push((Command::SetRange(k.into(), usize::MAX, sds("zz")), "SETRANGE offset overflow on a wrong-type key", true));
+    }
+    for k in ["s_int", "s_text", "l", "st", "z"] {
+        v.push((Command::HSet(k.into(), vec![(sds("f1"), sds("v1")), (sds("f2"), sds("v2"))]), "HSET on a wrong-type key", true));
+        v.push((Command::HIncrBy(k.into(), sds("n"), 1), "HINCRBY on a wrong-type key", true));
+    }
+    for k in ["s_text", "s_empty", "s_lead", "s_trail", "s_hex", "s_bin"] { v.push((Command::IncrByFloat(k.into(), 1.0), "INCRBYFLOAT on a non-float", false)); }
+    v.push((Command::IncrByFloat("s_text".into(), 1.0), "INCRBYFLOAT on a non-float", true));
+    for k in ["s_int", "s_float", "s_text", "missing"] {
+        v.push((Command::IncrByFloat(k.into(), f64::NAN), "INCRBYFLOAT by NaN", true));
+        v.push((Command::IncrByFloat(k.into(), f64::INFINITY), "INCRBYFLOAT by +inf", true));
+        v.push((Command::IncrByFloat(k.into(), f64::NEG_INFINITY), "INCRBYFLOAT by -inf", true));
+    }
+    v.push((Command::IncrByFloat("s_hugef".into(), 1.7e308), "INCRBYFLOAT overflowing to infinity", true));
+    v.push((Command::IncrByFloat("s_hugef".into(), f64::MAX), "INCRBYFLOAT overflowing to infinity", true));
+    v.push((Command::SetRange("s_int".into(), usize::MAX, sds("zz")), "SETRANGE offset + length overflows", true));
+    v.push((Command::SetRange("s_int".into(), usize::MAX - 1, sds("z")), "SETRANGE far beyond the maximum string size", true));
+    v.push((Command::SetRange("s_int".into(), 536_870_912, sds("z")), "SETRANGE beyond 512MB", true));
+    v.push((Command::SetRange("missing".into(), 536_870_912, sds("z")), "SETRANGE beyond 512MB on a missing key", true));
+    v.push((Command::SetRange("missing".into(), usize::MAX, sds("zz")), "SETRANGE overflow on a missing key", true));
+    v.push((Command::HIncrBy("h".into(), sds("t"), 1), "HINCRBY on a non-integer field", true));
+    v.push((Command::HIncrBy("h".into(), sds("max"), 1), "HINCRBY overflow", true));
+    v.push((Command::HIncrBy("h".into(), sds("n"), i64::MAX), "HINCRBY overflow", true));
+    v.push((Command::HIncrBy("h".into(), sds("n"), i64::MIN), "HINCRBY by i64::MIN", false));
+    v.push((Command::HIncrBy("h".into(), sds("max"), i64::MAX), "HINCRBY overflow", true));
+    // MSETNX: "0 if no key was set (at least one key already existed)" - all or nothing
+    v.push((Command::MSetNx(vec![("fresh1".into(), sds("1")), ("s_int".into(), sds("2"))]), "MSETNX whose second key exists", true));
+    v.push((Command::MSetNx(vec![("s_int".into(), sds("2")), ("fresh1".into(), sds("1"))]), "MSETNX whose first key exists", true));
+    v.push((Command::MSetNx(vec![("fresh1".into(), sds("1")), ("fresh2".into(), sds("2")), ("l".into(), sds("3"))]), "MSETNX whose last key is an existing list", true));
+    v.push((Command::MSetNx(vec![("fresh1".into(), sds("1")), ("fresh1".into(), sds("2")), ("h".into(), sds("3"))]), "MSETNX with a duplicate and an existing key", true));
+    v
+}
+
+fn failed(c: &Command, r: &RespValue) -> bool { matches!(r, RespValue::Error(_)) || (matches!(c, Command::MSetNx(_)) && matches!(r, RespValue::Integer(0))) }
+
+fn err_frame_once(with_ttl: bool, t: u64, mode: Clock, cmds: &[(Command, &'static str, bool)], hist: &str) -> Option<Found> {
+    let mut ex = CommandExecutor::new();
+    ex.set_time(VirtualTime::from_millis(100));
+    populate(&mut ex, with_ttl);
+    ex.execute(&Command::set("s_hugef".into(), sds("1.7e308")));
+    if with_ttl { ex.execute(&pexpire("l1", 30_000)); ex.execute(&pexpire("s_hugef", 31_000)); }
+    advance(&mut ex, mode, t);
+    for (c, what, must) in cmds {
+        let before = snapshot(&mut ex);
+        let reply = exec(&mut ex, c);
+        let after = snapshot(&mut ex);
+        let ctx = format!("keyspace {{s_int=41, s_text=abc, s_float=1.5, s_hugef=1.7e308, ..., l=[a,b,c], l1=[7], h={{n=5,t=x,max=i64::MAX}}, st={{1,2}}, z}}{} at clock {} ({}){}; command {} ({})", if with_ttl { " with TTLs" } else { "" }, t, if mode == Clock::Active { "set_time" } else { "update_time_readonly" }, hist, cmd_text(c), what);
+        match reply {
+            Err(m) => return Some(Found { input: ctx, observed: format!("panic: {}", m), required: "an error reply and an unchanged keyspace".into() }),
+            Ok(r) if failed(c, &r) => {
+                if before != after {
+                    let diff: Vec<String> = after.iter().filter(|l| !before.contains(l)).cloned().chain(before.iter().filter(|l| !after.contains(l)).map(|l| format!("(was) {}", l))).collect();
+                    return Some(Found { input: ctx, observed: format!("reply {} but the keyspace changed: {}", show(&r), diff.join(" | ")), required: "a command that replies with an error leaves every key, type, value and TTL unchanged (even when only one of several keys is at fault)".into() });
+                }
+            }
+            Ok(r) => if *must { return Some(Found { input: ctx, observed: format!("reply {}", show(&r)), required: "an error reply (and an unchanged keyspace)".into() }); },
+        }
+    }
+    None
+}
+
+pub fn search_err(_pid: &str, oid: &str, seed: u64) -> Option<Found> {
+    let mut cmds = err_commands();
+    // the commands of the refuted handler first ("err_frame/CommandExecutor::execute_rpoplpush/..." -> RPOPLPUSH ...)
+    let hint = oid.split("execute_").nth(1).map(|r| r.split('/').next().unwrap_or("").to_uppercase()).unwrap_or_default();
+    if !hint.is_empty() { cmds.sort_by_key(|(c, _, _)| !cmd_text(c).starts_with(&hint)); }
+    // the recorded witness: RPUSH src a; SET dst x; RPOPLPUSH src dst
+    for (c, name) in [(Command::RPopLPush("src".into(), "dst".into()), "RPOPLPUSH src dst"), (Command::LMove { source: "src".into(), dest: "dst".into(), wherefrom: "RIGHT".into(), whereto: "LEFT".into() }, "LMOVE src dst RIGHT LEFT")] {
+        let mut ex = CommandExecutor::new(); ex.set_time(VirtualTime::from_millis(100));
+        ex.execute(&Command::RPush("src".into(), vec![sds("a")])); ex.execute(&Command::set("dst".into(), sds("x")));
+        let before = snapshot(&mut ex);
+        let r = run(&mut ex, &c);
+        let after = snapshot(&mut ex);
+        if !r.starts_with('-') || before != after {
+            return Some(Found { input: format!("RPUSH src a ; SET dst x ; {}", name), observed: format!("reply {}; keyspace now {:?}", r, after), required: format!("an error reply and the keyspace unchanged: {:?}", before) });
+        }
+    }
+    for with_ttl in [false, true] { for mode in [Clock::Active, Clock::Lazy] { for t in [100u64, 9_000] {
+        // each command alone on a fresh keyspace (its failure must not depend on the others), then all in one session
+        for c in &cmds { if let Some(f) = err_frame_once(with_ttl, t, mode, std::slice::from_ref(c), "") { return Some(f); } }
+        let relaxed: Vec<(Command, &'static str, bool)> = cmds.iter().map(|(c, w, _)| (c.clone(), *w, false)).collect();
+        if let Some(f) = err_frame_once(with_ttl, t, mode, &relaxed, "; all failing commands in one session") { return Some(f); }
+    } } }
+    // seeded random: failing commands interleaved with successful writes and clock moves (keys may expire: then no failure is demanded)
+    let mut rng = Rng::new(seed + 170);
+    for _ in 0..200u64 {
+        let mut ex = CommandExecutor::new(); ex.set_time(VirtualTime::from_millis(100));
+        let with_ttl = rng.chance(1, 2);
+        populate(&mut ex, with_ttl);
+        ex.execute(&Command::set("s_hugef".into(), sds("1.7e308")));
+        let mode = if rng.chance(1, 2) { Clock::Active } else { Clock::Lazy };
+        let mut t = 100u64;
+        let mut hist: Vec<String> = Vec::new();
+        for _ in 0..40 {
+            if rng.chance(1, 6) { t += rng.below(4000); advance(&mut ex, mode, t); hist.push(format!("clock->{}", t)); }
+            if rng.chance(1, 4) {
+                let c = match rng.below(6) { 0 => Command::RPush("l".into(), vec![sds("n")]), 1 => Command::RPopLPush("l".into(), "l1".into()), 2 => Command::HSet("h".into(), vec![(sds("n"), sds("6"))]), 3 => Command::Append("s_text".into(), sds("!")), 4 => Command::LPop("l1".into()), _ => Command::IncrByFloat("s_float".into(), 0.25) };
+                hist.push(cmd_text(&c)); let _ = exec(&mut ex, &c); continue;
+            }
+            let (c, what, _) = rng.pick(&cmds).clone();
+            let before = snapshot(&mut ex);
+            let reply = exec(&mut ex, &c);
+            let after = snapshot(&mut ex);
+            match reply {
+                Err(m) => return Some(Found { input: format!("populated keyspace{}; history [{}]; {} ({})", if with_ttl { " with TTLs" } else { "" }, hist.join("; "), cmd_text(&c), what), observed: format!("panic: {}", m), required: "a reply".into() }),
+                Ok(r) if failed(&c, &r) && before != after => {
+                    let diff: Vec<String> = after.iter().filter(|l| !before.contains(l)).cloned().chain(before.iter().filter(|l| !after.contains(l)).map(|l| format!("(was) {}", l))).collect();
+                    return Some(Found { input: format!("populated keyspace{} ({:?}); history [{}]; {} ({})", if with_ttl { " with TTLs" } else { "" }, mode, hist.join("; "), cmd_text(&c), what), observed: format!("reply {} but the keyspace changed: {}", show(&r), diff.join(" | ")), required: "a command that replies with an error leaves every key, type, value and TTL unchanged".into() });
+                }
+                _ => {}
+            }
+            hist.push(cmd_text(&c));
+        }
+    }
+    None
+}
